@@ -371,3 +371,234 @@ theorem permute2_refines [Inhabited α] (Lo : Lazy2 α) (bIn : Shape) (keys : Li
     exact hres
 
 end TdVerif.C08
+
+namespace TdVerif.C08
+
+/-- **`transpose` on a stack of stacks** (every pair of dims, any sign spelling) -/
+theorem transpose2_refines [Inhabited α] (Lo : Lazy2 α) (bIn : Shape) (keys : List String) (feat : String → Shape)
+    (sdIn nIn : Nat) (hU : Uniform2 Lo bIn keys feat sdIn nIn) (hne0 : Lo.members ≠ []) (dim0 dim1 : Int)
+    (Lo' : Lazy2 α) (h : lazyTranspose2 Lo dim0 dim1 = some Lo') :
+    ∃ x y : Nat, (x : Int) = (if dim0 < 0 then (Lo.batch.length : Int) + dim0 else dim0) ∧
+      (y : Int) = (if dim1 < 0 then (Lo.batch.length : Int) + dim1 else dim1) ∧
+      x < Lo.batch.length ∧ y < Lo.batch.length ∧
+      abs2 Lo' ≈ (abs2 Lo).transpose (min x y) (max x y) := by
+  have hUd := denseOf_uniform Lo bIn keys feat sdIn nIn hU
+  have hned : (denseOf Lo).members ≠ [] := by simpa [denseOf] using hne0
+  have hB := absL_batch_eq (denseOf Lo) _ keys feat hUd hned
+  have hlenD : (denseOf Lo).members.length = Lo.members.length := by simp [denseOf]
+  have hsdD : (denseOf Lo).sd = Lo.sd := rfl
+  generalize hbI : bIn.insertIdx sdIn nIn = bI at hUd hB
+  have hr : Lo.batch.length = bI.length + 1 := by
+    rw [← denseOf_batch]
+    show (absL (denseOf Lo)).batch.length = _
+    rw [hB, List.length_insertIdx_of_le_length hUd.hsd]
+  have hsdle : Lo.sd ≤ bI.length := hUd.hsd
+  have hinner : ∀ Li ∈ Lo.members, Uniform Li bIn keys feat ∧ Li.members ≠ [] ∧ (absL Li).batch = bI := by
+    intro Li hLi
+    obtain ⟨hUi, hsdi, hni⟩ := hU.inner Li hLi
+    have hnei : Li.members ≠ [] := by
+      intro hm; rw [hm] at hni; simp at hni; have := hU.hn; omega
+    refine ⟨hUi, hnei, ?_⟩
+    rw [absL_batch_eq Li bIn keys feat hUi hnei, hsdi, hni, hbI]
+  unfold lazyTranspose2 at h
+  dsimp only at h
+  generalize ha0 : (if dim0 < 0 then (Lo.batch.length : Int) + dim0 else dim0) = a0 at h ⊢
+  generalize hb0 : (if dim1 < 0 then (Lo.batch.length : Int) + dim1 else dim1) = b0 at h ⊢
+  by_cases hrange : a0 < 0 ∨ b0 < 0 ∨ a0 ≥ (Lo.batch.length : Int) ∨ b0 ≥ (Lo.batch.length : Int)
+  · rw [if_pos hrange] at h; simp at h
+  rw [if_neg hrange] at h
+  refine ⟨a0.toNat, b0.toNat, by omega, by omega, by omega, by omega, ?_⟩
+  have hmin : (min a0 b0).toNat = min a0.toNat b0.toNat := by omega
+  have hmax : (max a0 b0).toNat = max a0.toNat b0.toNat := by omega
+  rw [hmin, hmax] at h
+  generalize hA : min a0.toNat b0.toNat = A at h ⊢
+  generalize hBB : max a0.toNat b0.toNat = B at h ⊢
+  have hAB : A ≤ B := by omega
+  have hBr : B < bI.length + 1 := by omega
+  have hrn : (Lo.batch.length : Int).toNat = bI.length + 1 := by omega
+  have leafEq : ∀ k ∈ keys, ∀ m ∈ (denseOf Lo).members.map (fun m => m.leaf k), m.shape = bI ++ feat k :=
+    fun k hk => leaf_shapes (denseOf Lo) bI keys feat hUd k hk
+  by_cases heq : A = B
+  · rw [if_pos heq] at h
+    simp only [Option.some.injEq] at h
+    subst h
+    subst heq
+    refine ⟨by show (abs2 Lo).batch = swapAt (abs2 Lo).batch A A; rw [swapAt_self], rfl, ?_⟩
+    intro k _
+    refine ⟨by show _ = swapAt _ A A; rw [swapAt_self], ?_⟩
+    intro c _
+    show _ = ((abs2 Lo).leaf k).get (swapAt c A A)
+    rw [swapAt_self]
+  rw [if_neg heq] at h
+  have hlt : A < B := by omega
+  have hidm : ∀ i (h2 : i < Lo.members.length),
+      absL Lo.members[i] ≈ (absL Lo.members[i]).mapLeaves (id (absL Lo.members[i]).batch) id := by
+    intro i h2; exact TD.Eqv.refl _
+  by_cases h1 : A = Lo.sd
+  · rw [if_pos h1] at h
+    by_cases h2 : B = A + 1
+    · rw [if_pos h2] at h
+      obtain ⟨rfl, _⟩ := lazyStack2_some _ _ _ h
+      apply abs2_map Lo bIn keys feat sdIn nIn hU hne0 id id (fun t => t.transpose A B) B _
+        (by intro t t' hh; exact hh)
+        (by intro k hk t ht; show B ≤ t.shape.length; rw [ht, hbI]; simp; omega)
+        Lo.members rfl (fun i _ h2 => hidm i h2)
+      · rw [hbI, abs2_eq, hB, hlenD, hsdD, ← h1, h2]; exact (swap_shape_adjacent bI _ A (by omega)).symm
+      · intro k hk
+        apply stack_reindex ((denseOf Lo).members.map fun m => m.leaf k) (bI ++ feat k) Lo.sd B (leafEq k hk)
+          (by simpa using hned) id (fun t => t.transpose A B) id (fun c => swapAt c A B) id (fun s => swapAt s A B)
+          (fun _ _ => rfl) (fun _ => rfl) (fun _ _ => rfl) (fun _ => rfl)
+        · simp only [List.length_map, id]
+          rw [← h1, h2, swap_shape_adjacent _ _ A (by simp; omega)]
+        · simp; omega
+        · intro c hc
+          have hcl := InB.length hc
+          simp only [List.length_map, id] at hcl
+          rw [List.length_insertIdx_of_le_length (by simp; omega)] at hcl
+          rw [← h1, h2]
+          exact swap_adjacent c A (by rw [hcl]; simp; omega)
+    · rw [if_neg h2, hrn] at h
+      simp only [Nat.add_sub_cancel] at h
+      cases hms : allSome (Lo.members.map fun Li => lazyPermute Li ((rollPerm bI.length (B - 1) A).map fun (d : Nat) => (d : Int))) with
+      | none => rw [hms] at h; simp at h
+      | some ms =>
+        rw [hms] at h
+        simp only [Option.bind_some] at h
+        obtain ⟨rfl, _⟩ := lazyStack2_some _ _ _ h
+        obtain ⟨hl, hget⟩ := allSome_map_getElem _ _ _ hms
+        have hleafLen : ∀ k ∈ (abs2 Lo).keys, (abs2 Lo).batch.length ≤ ((abs2 Lo).leaf k).shape.length := by
+          intro k hk
+          obtain ⟨_, hkk⟩ := head_batch_of_uniform (denseOf Lo) bI keys feat hUd hned
+          have hkeys : k ∈ keys := by rw [← hkk]; exact hk
+          have hhead := head_shape_of_all _ _ (leafEq k hkeys) (by simpa using hned)
+          show _ ≤ (T.stack ((denseOf Lo).members.map fun m => m.leaf k) Lo.sd).shape.length
+          rw [T.stack_shape, hhead, abs2_eq, hB, List.length_insertIdx_of_le_length hUd.hsd,
+            List.length_insertIdx_of_le_length (by simp; omega)]
+          simp
+        have hsw := TD.permute_swap (abs2 Lo) A B (by rw [abs2_eq, hB, List.length_insertIdx_of_le_length hUd.hsd]; omega)
+          (by rw [abs2_eq, hB, List.length_insertIdx_of_le_length hUd.hsd]; omega) hleafLen
+        rw [abs2_eq, hB, List.length_insertIdx_of_le_length hUd.hsd, ← abs2_eq] at hsw
+        subst hbI
+        have hp := swapRange_isPerm ((bIn.insertIdx sdIn nIn).length + 1) A B (by omega) hBr
+        have hroll := memberPerm_swap_left ((bIn.insertIdx sdIn nIn).length + 1) A B hlt hBr
+        have hidx : (swapAt (List.range ((bIn.insertIdx sdIn nIn).length + 1)) A B).idxOf Lo.sd = B := by
+          rw [← h1, idxOf_swapRange _ A B A (by omega) hBr (by omega)]
+          unfold swapF; simp
+        have := permute_members2 Lo bIn keys feat sdIn nIn hU hne0 _ hp ms hl (by
+          intro i i1 i2
+          obtain ⟨hUi, hnei, _⟩ := hinner _ (List.getElem_mem i2)
+          obtain ⟨q, _, hq, hres⟩ := permute_refines _ bIn keys feat hUi hnei _ _ (hget i i1 i2)
+          rw [map_cast_norm_toNat] at hq
+          rw [hq] at hres
+          rw [← h1, hroll]
+          simpa using hres)
+        rw [hidx] at this
+        refine TD.Eqv.trans this ?_
+        exact hsw
+  · rw [if_neg h1] at h
+    by_cases h2 : B = Lo.sd
+    · rw [if_pos h2] at h
+      by_cases h3 : A + 1 = B
+      · rw [if_pos h3] at h
+        obtain ⟨rfl, _⟩ := lazyStack2_some _ _ _ h
+        apply abs2_map Lo bIn keys feat sdIn nIn hU hne0 id id (fun t => t.transpose A B) A _
+          (by intro t t' hh; exact hh)
+          (by intro k hk t ht; show A ≤ t.shape.length; rw [ht, hbI]; simp; omega)
+          Lo.members rfl (fun i _ h2 => hidm i h2)
+        · rw [hbI, abs2_eq, hB, hlenD, hsdD, ← h2, ← h3]; exact (swap_shape_adjacent' bI _ A (by omega)).symm
+        · intro k hk
+          apply stack_reindex ((denseOf Lo).members.map fun m => m.leaf k) (bI ++ feat k) Lo.sd A (leafEq k hk)
+            (by simpa using hned) id (fun t => t.transpose A B) id (fun c => swapAt c A B) id (fun s => swapAt s A B)
+            (fun _ _ => rfl) (fun _ => rfl) (fun _ _ => rfl) (fun _ => rfl)
+          · simp only [List.length_map, id]
+            rw [← h2, ← h3, swap_shape_adjacent' _ _ A (by simp; omega)]
+          · simp; omega
+          · intro c hc
+            have hcl := InB.length hc
+            simp only [List.length_map, id] at hcl
+            rw [List.length_insertIdx_of_le_length (by simp; omega)] at hcl
+            rw [← h2, ← h3]
+            exact swap_adjacent' c A (by rw [hcl]; simp; omega)
+      · rw [if_neg h3, hrn] at h
+        simp only [Nat.add_sub_cancel] at h
+        cases hms : allSome (Lo.members.map fun Li => lazyPermute Li ((rollPerm bI.length A (B - 1)).map fun (d : Nat) => (d : Int))) with
+        | none => rw [hms] at h; simp at h
+        | some ms =>
+          rw [hms] at h
+          simp only [Option.bind_some] at h
+          obtain ⟨rfl, _⟩ := lazyStack2_some _ _ _ h
+          obtain ⟨hl, hget⟩ := allSome_map_getElem _ _ _ hms
+          have hleafLen : ∀ k ∈ (abs2 Lo).keys, (abs2 Lo).batch.length ≤ ((abs2 Lo).leaf k).shape.length := by
+            intro k hk
+            obtain ⟨_, hkk⟩ := head_batch_of_uniform (denseOf Lo) bI keys feat hUd hned
+            have hkeys : k ∈ keys := by rw [← hkk]; exact hk
+            have hhead := head_shape_of_all _ _ (leafEq k hkeys) (by simpa using hned)
+            show _ ≤ (T.stack ((denseOf Lo).members.map fun m => m.leaf k) Lo.sd).shape.length
+            rw [T.stack_shape, hhead, abs2_eq, hB, List.length_insertIdx_of_le_length hUd.hsd,
+              List.length_insertIdx_of_le_length (by simp; omega)]
+            simp
+          have hsw := TD.permute_swap (abs2 Lo) A B (by rw [abs2_eq, hB, List.length_insertIdx_of_le_length hUd.hsd]; omega)
+            (by rw [abs2_eq, hB, List.length_insertIdx_of_le_length hUd.hsd]; omega) hleafLen
+          rw [abs2_eq, hB, List.length_insertIdx_of_le_length hUd.hsd, ← abs2_eq] at hsw
+          subst hbI
+          have hp := swapRange_isPerm ((bIn.insertIdx sdIn nIn).length + 1) A B (by omega) hBr
+          have hroll := memberPerm_swap_right ((bIn.insertIdx sdIn nIn).length + 1) A B hlt hBr
+          have hidx : (swapAt (List.range ((bIn.insertIdx sdIn nIn).length + 1)) A B).idxOf Lo.sd = A := by
+            rw [← h2, idxOf_swapRange _ A B B (by omega) hBr hBr]
+            unfold swapF; simp
+          have := permute_members2 Lo bIn keys feat sdIn nIn hU hne0 _ hp ms hl (by
+            intro i i1 i2
+            obtain ⟨hUi, hnei, _⟩ := hinner _ (List.getElem_mem i2)
+            obtain ⟨q, _, hq, hres⟩ := permute_refines _ bIn keys feat hUi hnei _ _ (hget i i1 i2)
+            rw [map_cast_norm_toNat] at hq
+            rw [hq] at hres
+            rw [← h2, hroll]
+            simpa using hres)
+          rw [hidx] at this
+          exact TD.Eqv.trans this hsw
+    · rw [if_neg h2] at h
+      cases hms : allSome (Lo.members.map fun Li => lazyTranspose Li ((if A < Lo.sd then A else A - 1 : Nat) : Int) ((if B < Lo.sd then B else B - 1 : Nat) : Int)) with
+      | none => rw [hms] at h; simp at h
+      | some ms =>
+        rw [hms] at h
+        simp only [Option.bind_some] at h
+        obtain ⟨rfl, _⟩ := lazyStack2_some _ _ _ h
+        obtain ⟨hl, hget⟩ := allSome_map_getElem _ _ _ hms
+        apply abs2_map Lo bIn keys feat sdIn nIn hU hne0
+          (fun s => swapAt s (if A < Lo.sd then A else A - 1) (if B < Lo.sd then B else B - 1))
+          (fun t => t.transpose (if A < Lo.sd then A else A - 1) (if B < Lo.sd then B else B - 1))
+          (fun t => t.transpose A B) Lo.sd _
+          (by intro t t' hh; simp [T.transpose, hh])
+          (by intro k hk t ht; show Lo.sd ≤ (swapAt t.shape _ _).length; rw [length_swapAt, ht, hbI]; simp; omega)
+          ms hl
+          (by
+            intro i i1 i2
+            obtain ⟨hUi, hnei, hbi⟩ := hinner _ (List.getElem_mem i2)
+            obtain ⟨x, y, hx, hy, hxr, hyr, hres⟩ := transpose_refines_full _ bIn keys feat hUi hnei _ _ _ (hget i i1 i2)
+            have hx' : x = (if A < Lo.sd then A else A - 1) := by
+              have : ¬ (((if A < Lo.sd then A else A - 1 : Nat) : Int) < 0) := by omega
+              rw [if_neg this] at hx; omega
+            have hy' : y = (if B < Lo.sd then B else B - 1) := by
+              have : ¬ (((if B < Lo.sd then B else B - 1 : Nat) : Int) < 0) := by omega
+              rw [if_neg this] at hy; omega
+            have hle : x ≤ y := by rw [hx', hy']; split <;> split <;> omega
+            rw [Nat.min_eq_left hle, Nat.max_eq_right hle, hx', hy'] at hres
+            exact hres)
+        · rw [hbI, abs2_eq, hB, hlenD, hsdD]; exact (swap_shape_other bI _ A B Lo.sd hsdle (by omega) (by omega) h1 h2).symm
+        · intro k hk
+          apply stack_reindex ((denseOf Lo).members.map fun m => m.leaf k) (bI ++ feat k) Lo.sd Lo.sd (leafEq k hk)
+            (by simpa using hned) _ (fun t => t.transpose A B)
+            (fun c => swapAt c (if A < Lo.sd then A else A - 1) (if B < Lo.sd then B else B - 1)) (fun c => swapAt c A B)
+            (fun s => swapAt s (if A < Lo.sd then A else A - 1) (if B < Lo.sd then B else B - 1)) (fun s => swapAt s A B)
+            (fun _ _ => rfl) (fun _ => rfl) (fun _ _ => rfl) (fun _ => rfl)
+          · simp only [List.length_map]
+            exact swap_shape_other _ _ A B Lo.sd (by simp; omega) (by simp; omega) (by simp; omega) h1 h2
+          · simp [length_swapAt]; omega
+          · intro c hc
+            have hcl := InB.length hc
+            simp only [List.length_map] at hcl
+            rw [List.length_insertIdx_of_le_length (by simp [length_swapAt]; omega), length_swapAt] at hcl
+            exact swap_erase_other c A B Lo.sd (by rw [hcl]; simp; omega) (by rw [hcl]; simp; omega)
+              (by rw [hcl]; simp; omega) h1 h2
+
+end TdVerif.C08
